@@ -289,10 +289,25 @@ func cmdDispatchRace(args []string) {
 				}
 				var subs []subn
 				unsub := func(k int) {
-					subs[k].remove()
-					subs[k].removed.Store(true) // from here on the callback must never run again
+					sn := subs[k]
+					if rng.Intn(3) == 0 {
+						// the same unsubscribe function called from two goroutines at once: as soon as either call has
+						// returned the callback must never run again
+						second := make(chan struct{})
+						go func() {
+							sn.remove()
+							sn.removed.Store(true)
+							close(second)
+						}()
+						sn.remove()
+						sn.removed.Store(true)
+						<-second
+					} else {
+						sn.remove()
+						sn.removed.Store(true) // from here on the callback must never run again
+					}
 					if rng.Intn(2) == 0 {
-						subs[k].remove() // calling it again is harmless
+						sn.remove() // calling it again is harmless
 					}
 					subs = append(subs[:k], subs[k+1:]...)
 				}
@@ -310,11 +325,15 @@ func cmdDispatchRace(args []string) {
 						continue
 					}
 					removed := new(atomic.Bool)
+					slow := rng.Intn(4) == 0
 					cb := func(e sse.Event) {
 						if removed.Load() {
 							lateCalls.Add(1)
 						}
 						delivered.Store(e.Data, true)
+						if slow {
+							time.Sleep(30 * time.Microsecond) // a dispatch in flight: the registry stays read-locked meanwhile
+						}
 					}
 					switch rng.Intn(4) {
 					case 0:
